@@ -97,6 +97,7 @@ func TestSemaphoreReplay(t *testing.T) {
 }
 
 func replaySemaphore(size int, beh []sstep, out *vh.Result) (dv *vh.Divergence) {
+	defer recoverAsDivergence("semaphore", len(beh), &dv)
 	var nfn, live, maxLive int
 	var fmu sync.Mutex
 	sem := semaphore.New(size, func() *sres {
@@ -226,6 +227,13 @@ func replaySemaphore(size int, beh []sstep, out *vh.Result) (dv *vh.Divergence) 
 			go func() {
 				var r *sres
 				res := "ok"
+				defer func() {
+					if p := recover(); p != nil { // e.g. x/sync: "semaphore: released more than held"
+						c.mu.Lock()
+						c.done, c.res = true, fmt.Sprintf("panic: %v", p)
+						c.mu.Unlock()
+					}
+				}()
 				if c.blocking {
 					r = sem.GetBlocking()
 				} else {
@@ -246,6 +254,11 @@ func replaySemaphore(size int, beh []sstep, out *vh.Result) (dv *vh.Divergence) 
 		case "Cancel":
 			get(st.A.C).cancel()
 		case "Put":
+			// the resource is given up BEFORE the permit goes back: a waiter may construct its
+			// resource while Put is still returning
+			fmu.Lock()
+			live--
+			fmu.Unlock()
 			obs := func() (r string) {
 				defer func() {
 					if p := recover(); p != nil {
@@ -255,11 +268,6 @@ func replaySemaphore(size int, beh []sstep, out *vh.Result) (dv *vh.Divergence) 
 				sem.Put()
 				return "ok"
 			}()
-			if obs == "ok" {
-				fmu.Lock()
-				live--
-				fmu.Unlock()
-			}
 			if obs != st.A.Res {
 				return &vh.Divergence{Key: "semaphore:Put:" + st.A.Res + "->" + obs, What: "result of Put differs from Semaphore.tla",
 					Step: si, Expected: st.A.Res, Observed: obs}
